@@ -6,7 +6,8 @@ import pysam
 from whatshap.cli.split import run_split
 
 ID = "C14"
-RULE = ("Reads: 1-30 records as unaligned BAM, FASTQ or FASTQ.gz, names from a small pool (duplicates frequent), sequences "
+RULE = ("Reads: 1-30 records as unaligned BAM, aligned BAM (CIGAR, primary / reverse / secondary / supplementary records; without SEQ "
+        "the CIGAR gives the length), FASTQ or FASTQ.gz, names from a small pool (duplicates frequent), sequences "
         "of length 0-40 (BAM: also '*'), tags/comments; list: 2 or 4 columns, with/without header line, H1..Hn and 'none' "
         "entries, names absent from the reads, reads absent from the list, phase sets and chromosomes for "
         "--only-largest-block; ploidy 2 via --output-h1/-h2 (each optional) or 2-4 via -o; every combination of "
@@ -39,6 +40,13 @@ def gen_case(draw):
         qual = "".join(draw(st.sampled_from("!5I~")) for _ in range(n))
         extra = draw(st.sampled_from([None, None, "np:i:3", "zz"]))
         reads.append({"name": name, "seq": seq, "qual": qual, "extra": extra})
+    # the usual input of split is an aligned (haplotagged) BAM: records with a CIGAR; without SEQ the length is that of the CIGAR
+    aligned = fmt == "bam" and draw(st.booleans())
+    if aligned:
+        for r in reads:
+            r["pos"] = draw(st.integers(0, 5000))
+            r["qlen"] = len(r["seq"]) or draw(st.integers(1, 60))
+            r["flag"] = draw(st.sampled_from([0, 0, 16, 256, 2048]))
     mode = draw(st.sampled_from(["h1h2", "outputs"]))
     ploidy = 2 if mode == "h1h2" else draw(st.sampled_from([2, 3, 4]))
     fourcol = draw(st.booleans())
@@ -62,18 +70,26 @@ def gen_case(draw):
     opts = {"untagged": draw(st.booleans()), "add_untagged": draw(st.integers(0, 3)) == 0,
             "discard_unknown": draw(st.integers(0, 2)) == 0 and len(entries) > 0,
             "only_largest": fourcol and draw(st.integers(0, 2)) == 0, "histogram": draw(st.booleans())}
-    return {"fmt": fmt, "reads": reads, "mode": mode, "ploidy": ploidy, "fourcol": fourcol, "header": header,
+    return {"fmt": fmt, "aligned": aligned, "reads": reads, "mode": mode, "ploidy": ploidy, "fourcol": fourcol, "header": header,
             "entries": [list(e) for e in entries], "h_out": h_out, "opts": opts}
 
 
 def write_reads(case, path):
     if case["fmt"] == "bam":
         header = {"HD": {"VN": "1.6", "SO": "unknown"}, "RG": [{"ID": "rg1", "SM": "s"}]}
+        if case.get("aligned"):
+            header["SQ"] = [{"SN": "chr1", "LN": 100000}]
         with pysam.AlignmentFile(path, "wb", header=header) as out:
             for r in case["reads"]:
                 a = pysam.AlignedSegment(out.header)
                 a.query_name = r["name"]
                 a.flag = 4
+                if case.get("aligned"):
+                    a.flag = r["flag"]
+                    a.reference_id = 0
+                    a.reference_start = r["pos"]
+                    a.mapping_quality = 60
+                    a.cigarstring = "%dM" % r["qlen"]
                 if r["seq"]:
                     a.query_sequence = r["seq"]
                     a.query_qualities = pysam.qualitystring_to_array(r["qual"])
@@ -98,7 +114,8 @@ def read_records(fmt, path):
             for a in f:
                 tags = tuple(sorted((k, v) for k, v in a.get_tags()))
                 q = a.query_qualities
-                out.append((a.query_name, a.query_sequence or "", "".join(chr(x + 33) for x in q) if q is not None else "", a.flag, tags))
+                out.append((a.query_name, a.query_sequence or "", "".join(chr(x + 33) for x in q) if q is not None else "", a.flag, tags,
+                            a.reference_start if not a.is_unmapped else None, a.cigarstring))
     else:
         with pysam.FastxFile(path) as f:
             for r in f:
@@ -115,7 +132,10 @@ def expected_records(case):
                 tags.append(("np", 3))
             elif r["extra"]:
                 tags.append(("zz", r["extra"]))
-            out.append((r["name"], r["seq"], r["qual"] if r["seq"] else "", 4, tuple(sorted(tags))))
+            if case.get("aligned"):
+                out.append((r["name"], r["seq"], r["qual"] if r["seq"] else "", r["flag"], tuple(sorted(tags)), r["pos"], "%dM" % r["qlen"]))
+            else:
+                out.append((r["name"], r["seq"], r["qual"] if r["seq"] else "", 4, tuple(sorted(tags)), None, None))
         return out
     return [(r["name"], r["seq"], r["qual"], r["extra"] or "") for r in case["reads"]]
 
@@ -202,7 +222,8 @@ class SplitPart:
             h = cls.get(r["name"], 0)
             if not process[h]:
                 continue
-            classcount[h][len(r["seq"])] = classcount[h].get(len(r["seq"]), 0) + 1
+            L = r["qlen"] if case.get("aligned") else len(r["seq"])   # no SEQ: the length the CIGAR implies
+            classcount[h][L] = classcount[h].get(L, 0) + 1
             routed[h].append(rec)
             if h == 0 and opts["add_untagged"]:
                 for k in range(1, ploidy + 1):
@@ -252,6 +273,8 @@ class SplitPart:
         dupnames = len({r["name"] for r in case["reads"]}) < len(case["reads"])
         has_none = any(e[1] == "none" for e in case["entries"])
         omitted = any(h not in outs for h in range(0, ploidy + 1))
+        if case.get("aligned"):
+            ctx.label("aligned-bam")
         ctx.nontrivial((dupnames or has_none or omitted) and any(cls.get(r["name"]) for r in case["reads"]))
         for lab, flag in (("duplicate-read-names", dupnames), ("none-entry", has_none), ("omitted-output", omitted),
                           ("discard-unknown", opts["discard_unknown"]), ("add-untagged", opts["add_untagged"]),
